@@ -21,7 +21,15 @@ func cmdshellMain(args []string) {
 	eachLine(func(m map[string]any) {
 		res := map[string]any{"i": m["i"]}
 		src, _ := m["perl"].(string)
-		shell, err := simpleshell.NewCmdShell(exec.Command("perl", "-e", src))
+		cmd := exec.Command("perl", "-e", src)
+		if av, ok := m["argv"].([]any); ok && 0 < len(av) { /* some other command, e.g. one which cannot be started */
+			var argv []string
+			for _, a := range av {
+				argv = append(argv, fmt.Sprint(a))
+			}
+			cmd = exec.Command(argv[0], argv[1:]...)
+		}
+		shell, err := simpleshell.NewCmdShell(cmd)
 		if nil != err {
 			res["r"] = "newerr"
 			res["msg"] = err.Error()
